@@ -8,6 +8,7 @@
 -/
 import VsgModel.Engine.CodeTags
 import VsgProofs.Lemmas.CodeTags
+import VsgModel.Generated.Rules
 namespace Vsgm.C11
 open Vsgm Vsgm.CT
 
@@ -395,5 +396,14 @@ example : Guard [.comment kOff, .cr, .other] 2 := by
   rw [hs] at ht
   have h0 : tagOf .cr = .cr := rfl
   simpa [offGov_cons, nlGov_cons, offGov, nlGov, hc, h0, TagC.opens, TagC.closes] using ht
+
+/-! ### static side condition, re-checked against the regenerated rule table on every run -/
+
+/-- **every violation enters through `Rule.add_violation`** (where `has_code_tag` is consulted): no rule of
+    the running system overrides the method, and no class in a rule's MRO other than `vsg.rule.Rule` assigns to,
+    appends to or extends `self.violations` (source scan in `harness/gen_tables.py`).  The filter theorems above
+    speak about `add_violation`; this is what makes them speak about every rule. -/
+theorem violations_enter_through_add_violation : ∀ r ∈ Gen.ruleTable, r.overridesAddViolation = false := by
+  decide +kernel
 
 end Vsgm.C11
